@@ -81,7 +81,9 @@ def run():
         if any(R.separator_class(a) for a in member_asts[targets[i][0]] if a):
             roles.add("separator-class")
         import ref as _ref
-        if any(_ref.superposition_mismatch(a) for a in member_asts[targets[i][0]] if a):
+        # the depth fold is unreliable for every tree wildcard at a branch edge (superposition,
+        # open components continuing into the branch, rooted variants: `/ab{c/**}` reports >= 2)
+        if any(_ref.superposition_mismatch(a) or R.tree_at_branch_edge(a) for a in member_asts[targets[i][0]] if a):
             roles.add("tree-at-branch-edge")
         rep.candidate(roles, {"short": {"program": targets[i][0], "depth": targets[i][2]["depth"],
                                         "matches": w, "components": n}})
